@@ -87,6 +87,69 @@ def run(rep, drv):
 					report('discrete(scipy object)', 'x=%d: distrib branch (%r,%r,%r,%r) vs pmf definition %s' % (x, n_c, nb_c, n2_c, nb2_c, [float(v) for v in m]), case,
 						   [n_c, nb_c, n2_c, nb2_c], [str(v) for v in m], True); break
 
+	# ---- frozen scipy objects built in every way scipy allows (positional / keyword / loc), several calls in one process ----
+	def frozen(rng):
+		fam = rng.choice(['poisson', 'nbinom', 'geom', 'binom', 'randint'])
+		loc = rng.choice([0, 0, 1, 3, 10])
+		style = rng.choice(['pos', 'kw', 'loc-kw', 'all-kw'])
+		if fam == 'poisson':
+			pars = {'mu': rng.choice([2, 5, 9])}; order = ['mu']
+		elif fam == 'nbinom':
+			pars = {'n': rng.choice([2, 4]), 'p': rng.choice([0.2, 0.5])}; order = ['n', 'p']
+		elif fam == 'geom':
+			pars = {'p': rng.choice([0.2, 0.5])}; order = ['p']
+		elif fam == 'binom':
+			pars = {'n': rng.choice([5, 12]), 'p': rng.choice([0.25, 0.5])}; order = ['n', 'p']
+		else:
+			pars = {'low': rng.choice([0, 2]), 'high': rng.choice([6, 9])}; order = ['low', 'high']
+		ctor = getattr(stats, fam)
+		if style == 'pos':
+			dist = ctor(*[pars[k] for k in order], loc) if loc else ctor(*[pars[k] for k in order])
+		elif style == 'kw':
+			dist = ctor(**pars) if not loc else ctor(loc=loc, **pars)
+		elif style == 'loc-kw':
+			dist = ctor(*[pars[k] for k in order], loc=loc)
+		else:
+			dist = ctor(loc=loc, **pars)
+		return dist, {'family': fam, 'pars': pars, 'loc': loc, 'style': style}
+	for k in range(N // 3):
+		seq = []
+		base = None
+		for step in range(rng.randint(2, 5)):
+			dist, desc = frozen(rng)
+			if base is not None and rng.random() < .6:
+				# same family and parameters as an earlier call, built differently (other loc / other keyword style)
+				fam0, pars0 = base
+				ctor = getattr(stats, fam0)
+				loc = rng.choice([0, 1, 3, 10])
+				order = {'poisson': ['mu'], 'nbinom': ['n', 'p'], 'geom': ['p'], 'binom': ['n', 'p'], 'randint': ['low', 'high']}[fam0]
+				style = rng.choice(['loc-kw', 'all-kw', 'pos'])
+				dist = ctor(*[pars0[k2] for k2 in order], loc=loc) if style == 'loc-kw' else (ctor(loc=loc, **pars0) if style == 'all-kw' else ctor(*[pars0[k2] for k2 in order], loc))
+				desc = {'family': fam0, 'pars': pars0, 'loc': loc, 'style': style}
+			elif base is None or rng.random() < .5:
+				base = (desc['family'], desc['pars'])
+			x = rng.randint(0, 20)
+			seq.append(dict(desc, x=x))
+			case = {'history': list(seq)}
+			rep.case('discrete(frozen scipy object, call history)', case, nontrivial=len(seq) > 1)
+			rep.count('frozen:' + desc['family'] + ':' + desc['style'])
+			try:
+				with warnings.catch_warnings():
+					warnings.simplefilter('ignore')
+					n, nb = lf.discrete_loss(x, distrib=dist)
+					n2, nb2 = lf.discrete_second_loss(x, distrib=dist)
+			except Exception as e:
+				report('discrete(frozen scipy object, call history)', 'raised %s' % err_enum(e), case, None, None, True); break
+			lo_s = int(dist.support()[0]); hi_s = dist.support()[1]
+			hi = int(hi_s) if hi_s != float('inf') else int(dist.ppf(1 - 1e-15)) + 5
+			items = [(y, float(dist.pmf(y))) for y in range(lo_s, hi + 1)]
+			d = direct_discrete(items, x)
+			rep.tol_cmp += 4
+			tol = 1e-9 if hi_s != float('inf') else 1e-7
+			if not all(close(a, b, tol) for a, b in zip((n, nb, n2, nb2), d)):
+				report('discrete(frozen scipy object, call history)', 'call %d of the history: discrete losses (%r,%r,%r,%r) but the definitions give %s' % (
+					len(seq), n, nb, n2, nb2, [float(v) for v in d]), case, [n, nb, n2, nb2], [float(v) for v in d], True); break
+
 	# ---- discrete families -------------------------------------------------
 	for k in range(N // 2):
 		fam = rng.choice(['poisson', 'geometric', 'negbin', 'negbin-ms'])
